@@ -195,3 +195,22 @@ impl VOperatorW {
         ensures r is Ok ==> final(self).files@ == old(self).files@.remove(path.key@), r is Err ==> final(self).files@ == old(self).files@,
     { unimplemented!() }
 }
+
+// ---- object-store listings: the per-entry closures of OpenDALBackend::list / list_with_size ----
+pub struct MetaO { pub file: bool, pub len: u64 }
+impl MetaO {
+    pub fn is_file(&self) -> (r: bool) ensures r == self.file, { self.file }
+}
+pub struct EntryO { pub meta: MetaO, pub name: NameL }
+impl EntryO {
+    pub fn metadata(&self) -> (r: &MetaO) ensures *r == self.meta, { &self.meta }
+    pub fn name(&self) -> (r: &NameL) ensures *r == self.name, { &self.name }
+}
+pub fn vok_entry_o(r: Result<EntryO, OpErr>) -> (o: Option<EntryO>)
+    ensures o == (match r { Ok(e) => Some(e), Err(_) => None::<EntryO> }),
+{ match r { Ok(e) => Some(e), Err(_) => None } }
+// the nested helper `length` of OpenDALBackend::list_with_size: content_length as u32 if it fits (closure that only logs): ELIDED
+#[verifier::external_body]
+pub fn vlength_o(entry: &MetaO, file_name: &NameL, tpe: FileType) -> (r: Option<u32>)
+    ensures r matches Some(l) ==> entry.len == l, r is Some <==> entry.len <= u32::MAX,
+{ unimplemented!() }
